@@ -397,7 +397,8 @@ def gen_schema(rnd: random.Random) -> dict:
         return f"{t}:{n[0]:06d}"
 
     schema: dict = {}
-    ctls = [f"01:{100000 + 1111 * k:06d}" for k in range(rnd.choice((1, 1, 2, 3)))]
+    # (a controller is an 01: or - the validator's ^(01|23): - a 23: programmer)
+    ctls = [f"{rnd.choice(('01', '01', '01', '23'))}:{100000 + 1111 * k:06d}" for k in range(rnd.choice((1, 1, 2, 3)))]
     schema["main_tcs"] = ctls[0]
     for c in ctls:
         tcs: dict = {}
